@@ -3,7 +3,11 @@ package harness
 import (
 	"context"
 	"fmt"
+	"math"
+	"regexp"
 	"sort"
+	"strconv"
+	"strings"
 	"time"
 
 	"github.com/google/badwolf/bql/planner/filter"
@@ -379,7 +383,31 @@ func equalStrings(a, b []string) bool {
 		return false
 	}
 	for i := range a {
-		if a[i] != b[i] {
+		if a[i] != b[i] && !sameUpToFloatSums(a[i], b[i]) {
+			return false
+		}
+	}
+	return true
+}
+
+// Float sums (rendered "L|float64~<13 significant digits>" by rowKey) are equal when they agree to a relative 1e-11:
+// float addition is not associative and the engine may add a group's values in any order, so two correct sums can
+// land on different sides of any rounding boundary. (Found by a soak: 2.5 + 2.5000001 + 2.50000005 + ... rendered
+// with 9 digits came out as ...04 and ...05.)
+var floatSumRe = regexp.MustCompile(`L\|float64~([-+0-9.eE]+)`)
+
+func sameUpToFloatSums(x, y string) bool {
+	if !strings.Contains(x, "L|float64~") || floatSumRe.ReplaceAllString(x, "F") != floatSumRe.ReplaceAllString(y, "F") {
+		return false
+	}
+	fx, fy := floatSumRe.FindAllStringSubmatch(x, -1), floatSumRe.FindAllStringSubmatch(y, -1)
+	if len(fx) != len(fy) {
+		return false
+	}
+	for i := range fx {
+		a, err1 := strconv.ParseFloat(fx[i][1], 64)
+		b, err2 := strconv.ParseFloat(fy[i][1], 64)
+		if err1 != nil || err2 != nil || math.Abs(a-b) > 1e-11*math.Max(1, math.Max(math.Abs(a), math.Abs(b))) {
 			return false
 		}
 	}
